@@ -1007,3 +1007,194 @@ def rf103(run):
     if n == 0:
         raise F.AnalysisBroken('MIR_output_str: numeric escape format not found')
     return n
+
+
+# ---------------------------------------------------------------------------------------------
+# RF106: alias annotations of a memory operand: what the text writer prints is what the scanner reads
+# ---------------------------------------------------------------------------------------------
+
+def rf106(run):
+    import re
+    from lib import printexec as PE
+    from lib import regions as R
+    rule = 'RF106'
+    run.rule(rule, 'MIR_output_op (memory case) and the memory-operand branch of MIR_scan_string are executed abstractly for the four '
+                   'combinations of absent / present alias and nonalias names: the suffix the writer prints is cut into the scanner\'s '
+                   'tokens and fed to the scanner\'s `if (t.code == TC_COL) …` statement; the alias and nonalias the scanner stores must be '
+                   'the ones the writer was given, without a scan error (`::n` is the only spelling of "nonalias only")')
+    tu = run.tu('mir')
+    f = tu.func('MIR_output_op')
+    g = tu.func('MIR_scan_string')
+    run.functions_analysed.update({('mir', f.name), ('mir', g.name)})
+    sws = R.find_switches(f, lambda c: c.replace(' ', '').endswith('.mode'))
+    if not sws:
+        raise F.AnalysisBroken('MIR_output_op: switch on the operand mode not found')
+    reg = [r for r in R.switch_regions(f, sws[0]) if 'MIR_OP_MEM' in [c[0] for c in r['cases']]]
+    if not reg:
+        raise F.AnalysisBroken('MIR_output_op: no MIR_OP_MEM case')
+    j = R.switch_regions(f, sws[0]).index(reg[0])
+    regs = R.switch_regions(f, sws[0])
+    stmts = []
+    while True:
+        stmts += regs[j]['stmts']
+        if regs[j]['falls_into'] is None:
+            break
+        j = regs[j]['falls_into']
+    # the scanner's statement
+    cands = [x for x in g.walk() if x['k'] == 'IfStmt' and F.src(F.strip(x['c'][0])).replace(' ', '').strip('()') == 't.code==TC_COL'
+             and any(y['k'] == 'MemberExpr' and y['n'] == 'nonalias' for y in F.walk(x))]
+    if not cands:
+        raise F.AnalysisBroken('MIR_scan_string: the statement that reads the alias names was not found')
+    rd = max(cands, key=lambda x: sum(1 for _ in F.walk(x)))
+    modes = dict(tu.enum_by_member('MIR_OP_MEM')[1])
+    tcs = dict(tu.enum_by_member('TC_COL')[1])
+    ty = dict(tu.enum('MIR_type_t'))
+
+    def written(alias, nonalias):
+        env = {'op.mode': modes['MIR_OP_MEM'], 'op.u.mem.disp': 0, 'op.u.mem.base': 1, 'op.u.mem.index': 0, 'op.u.mem.scale': 1,
+               'op.u.mem.alias': alias, 'op.u.mem.nonalias': nonalias, 'op.u.mem.type': ty['MIR_T_I64']}
+        acc = {'MIR_alias_name': lambda a, e, x: 'A%d' % x.val(a[1], e), 'MIR_type_str': lambda a, e, x: 'i64',
+               'MIR_reg_name': lambda a, e, x: 'r'}
+        ex = PE.PrintExec(tu, {}, acc, {})
+        ex.concrete_ints = True
+        ex.exec_unit_calls = True
+        for st in stmts:
+            r = ex.run(st, env)
+            if r in ('break', 'return'):
+                break
+        return ex.text()
+    base = written(0, 0)
+    n = 0
+    for alias, nonalias in ((0, 0), (3, 0), (0, 4), (3, 4)):
+        t = written(alias, nonalias)
+        n += 1
+        if not t.startswith(base):
+            run.ob(rule, (alias, nonalias), False)
+            run.violation(rule, f, 'memory operand text', 'the text of a memory operand with alias names (`%s`) does not extend the text without them (`%s`)' % (t, base), line=stmts[0]['l'])
+            continue
+        suffix = t[len(base):]
+        toks = [('TC_COL', None) if m == ':' else ('TC_NAME', m) for m in re.findall(r':|[A-Za-z_][A-Za-z0-9_]*', suffix)]
+        if ''.join(':' if k == 'TC_COL' else v for k, v in toks) != suffix:
+            raise F.AnalysisBroken('suffix `%s` of a memory operand is not made of `:` and names' % suffix)
+        toks.append(('TC_NL', None))
+        errors = []
+        pos = [0]
+        env = {'op.u.mem.alias': 0, 'op.u.mem.nonalias': 0}
+
+        def advance(args, env_, ex_):
+            if pos[0] < len(toks) - 1:
+                pos[0] += 1
+            k_, v_ = toks[pos[0]]
+            env_['t.code'] = tcs[k_]
+            if v_ is not None:
+                env_['t.u.name'] = v_
+            else:
+                env_.pop('t.u.name', None)
+            return 1
+        k0, v0 = toks[0]
+        env['t.code'] = tcs[k0]
+        if v0 is not None:
+            env['t.u.name'] = v0
+        acc = {'scan_token': advance, 'scan_error': lambda a, e, x: errors.append(F.src(a[1])) or 1,
+               'MIR_alias': lambda a, e, x: (int(str(x.val(a[1], e))[1:]) if isinstance(x.val(a[1], e), str) else None)}
+        ex = PE.PrintExec(tu, {}, acc, {})
+        ex.run(rd, env)
+        got = (env.get('op.u.mem.alias'), env.get('op.u.mem.nonalias'))
+        ok = not errors and got == (alias, nonalias) and toks[pos[0]][0] == 'TC_NL'
+        run.ob(rule, (alias, nonalias), ok, {'alias, nonalias': (alias, nonalias), 'printed suffix': suffix, 'scanned as': got, 'scan errors': errors})
+        if not ok:
+            run.violation(rule, f, 'alias suffix `%s`' % suffix, 'a memory operand with alias=%s nonalias=%s is printed with the suffix `%s`, which the '
+                          'scanner reads as alias=%s nonalias=%s%s: the module read back gives the optimiser different aliasing facts (a store '
+                          'and a load that may alias are treated as disjoint)' %
+                          ('a' if alias else '-', 'n' if nonalias else '-', suffix, got[0], got[1], ' with error %s' % errors[0] if errors else ''),
+                          line=stmts[0]['l'])
+    return n
+
+
+# ---------------------------------------------------------------------------------------------
+# RF85b: reserved-name bookkeeping in the binary reader
+# ---------------------------------------------------------------------------------------------
+
+def rf85b(run):
+    rule = 'RF85b'
+    run.rule(rule, 'MIR_read_with_func: the name handed to a creator of a named data item (data, bss, ref, lref, expr) was produced by a reader '
+                   'that records reserved `.lcN` names in module->last_temp_item_num (forward may-analysis "the variable holds a name that '
+                   'skipped the bookkeeping" over the CFG); otherwise loading the module read back creates a second `.lcN` item '
+                   '(repeated item declaration), while the module written loads')
+    tu = run.tu('mir')
+    f = tu.func('MIR_read_with_func')
+    run.functions_analysed.add(('mir', f.name))
+    cfg = f.cfg
+
+    def tracks(g):
+        return any(y['k'] == 'CallExpr' and y.get('callee') == 'process_reserved_name' and 'last_temp_item_num' in F.src(y) for y in g.walk())
+    helpers = {g.name for g in tu.func_list if g.name != f.name and g.body is not None and tracks(g)}
+    if not helpers and not tracks(f):
+        run.ob(rule, ('bookkeeping',), False)
+        run.violation(rule, f, 'no reserved-name bookkeeping', 'the binary reader never calls process_reserved_name for the temp-item prefix', line=f.line)
+        return 1
+    run.functions_analysed.update(('mir', h) for h in helpers)
+    creators = ('MIR_new_data', 'MIR_new_string_data', 'MIR_new_bss', 'MIR_new_ref_data', 'MIR_new_lref_data', 'MIR_new_expr_data')
+    sites = [x for x in f.walk() if x['k'] == 'CallExpr' and x.get('callee') in creators]
+    if len(sites) < 5:
+        raise F.AnalysisBroken('MIR_read_with_func: only %d data item creators found' % len(sites))
+    vars_ = set()
+    for x in sites:
+        a = F.strip(F.call_args(x)[1])
+        if a['k'] != 'DeclRefExpr':
+            raise F.AnalysisBroken('name argument of %s is not a variable' % x['callee'])
+        vars_.add(a['n'])
+    site_ids = {x['i']: x for x in sites}
+
+    def rhs_state(e):
+        cs = [y for y in F.walk(e) if y['k'] == 'CallExpr']
+        if any(y.get('callee') in helpers for y in cs):
+            # every name-producing call of the right-hand side must be a tracking one
+            others = [y for y in cs if y.get('callee') not in helpers and tu.funcs.get(y.get('callee')) is not None
+                      and tu.funcs[y['callee']].body is not None and 'char' in str(tu.type(tu.funcs[y['callee']].ret))]
+            return bool(others)
+        named = [y for y in cs if y.get('callee') not in ('strcmp',)]
+        return bool(named)       # a name from somewhere else: not recorded
+
+    def transfer(B, st, report):
+        st = dict(st)
+        seen = set()
+        for e in B.elems:
+            for x in reversed(list(cfg.local_walk(e))):
+                if x['i'] in seen:
+                    continue
+                seen.add(x['i'])
+                if x['k'] == 'BinaryOperator' and x['op'] == '=' and F.strip(x['c'][0])['k'] == 'DeclRefExpr' and F.strip(x['c'][0])['n'] in vars_:
+                    st[F.strip(x['c'][0])['n']] = rhs_state(x['c'][1])
+                elif x['k'] == 'CallExpr' and x.get('callee') == 'process_reserved_name' and 'last_temp_item_num' in F.src(x):
+                    a0 = F.strip(F.call_args(x)[0])
+                    if a0['k'] == 'DeclRefExpr':
+                        st[a0['n']] = False
+                elif report is not None and x['i'] in site_ids:
+                    v = F.strip(F.call_args(x)[1])['n']
+                    report[x['i']] = report.get(x['i'], False) or st.get(v, False)
+        return st
+    inn = {b: {} for b in cfg.blocks}
+    changed = True
+    while changed:
+        changed = False
+        for b in cfg.rpo():
+            out = transfer(cfg.blocks[b], inn[b], None)
+            for s in cfg.live_succs(b):
+                for v, d in out.items():
+                    if d and not inn[s].get(v, False):
+                        inn[s][v] = True
+                        changed = True
+    rep = {}
+    for b in cfg.blocks:
+        transfer(cfg.blocks[b], inn[b], rep)
+    n = 0
+    for i, x in site_ids.items():
+        n += 1
+        ok = not rep.get(i, False)
+        run.ob(rule, (x['callee'], x['l']), ok, {'site': '%s:%d' % (f.relfile(), x['l']), 'creator': x['callee'], 'tracking readers': sorted(helpers)})
+        if not ok:
+            run.violation(rule, f, '%s with a name that skipped the bookkeeping' % x['callee'], 'the name given to `%s` can come from a reader that does not call '
+                          'process_reserved_name (…, &module->last_temp_item_num): an item of this kind named `.lcN` leaves the counter of the module '
+                          'read back too low and MIR_load_module later creates a second `.lcN`' % F.src(x)[:50], line=x['l'])
+    return n
